@@ -502,8 +502,11 @@ func (s *c12StorageRun) intoSealed() {
 	s.r.Count("requests_into_sealed_namespace", 1)
 	s.checkSealedUntouched(q)
 	handled, _ := q.handled()
-	if handled || q.ok() {
-		s.violate("C12-sealed-namespace-access", fmt.Sprintf("while %q is sealed, %s %q (header %q) with token %s was served: %s", S.Path, q.Op, q.Path, q.Header, tok.Name, c12Short(q.outcome())), map[string]any{"request": q})
+	switch {
+	case handled:
+		s.violate("C12-sealed-namespace-access", fmt.Sprintf("while %q is sealed, %s %q (header %q) with token %s reached the backend of %s: %s", S.Path, q.Op, q.Path, q.Header, tok.Name, M, c12Short(q.outcome())), map[string]any{"request": q})
+	case q.ok():
+		s.violate("C12-sealed-namespace-request-served", fmt.Sprintf("while %q is sealed, %s %q (header %q) with token %s succeeded: %s", S.Path, q.Op, q.Path, q.Header, tok.Name, c12Short(q.outcome())), map[string]any{"request": q})
 	}
 	s.nontrivial(q, "into-sealed")
 }
